@@ -302,10 +302,11 @@ def main():
     Z.reset_log()
     if tier == "quick":
         # last shape: arbitrary finite data in the three Gamma acoustic slots (they must be excluded by position, whatever they hold)
-        shapes = [(2, 6, 2, 1, True), (3, 6, 2, 1, True), (2, 3, 2, 1, False)]
+        shapes = [(2, 6, 2, 1, True), (3, 6, 2, 1, True), (2, 3, 2, 1, False),
+                  (1, 6, 2, 1, True), (2, 6, 1, 1, True)]      # ends of the quantifier: a Gamma-only mesh, a single volume
     else:
         shapes = [(1, 6, 2, 1, True), (2, 3, 2, 1, True), (2, 6, 2, 1, True), (3, 6, 3, 2, True),
-                  (4, 12, 3, 2, True), (2, 6, 2, 1, False), (8, 3, 2, 1, True)]
+                  (4, 12, 3, 2, True), (2, 6, 2, 1, False), (8, 3, 2, 1, True), (2, 6, 1, 1, True), (1, 30, 2, 1, True)]
     for nq, np_, nv, nT, acz in shapes:
         run_shape(chk, ns, nq, np_, nv, nT, acoustic_zero=acz)
     # temperature grids that do not start at T=0 / where the T=0 row is not the first (masking is by value, not position)
